@@ -461,6 +461,8 @@ def analytic_case(draw, names=None, nmax=12, need_edge=True, modes=('rho', 'sets
         sir = e.model == 'SIR'
         I0, R0 = draw(gen.initial_sets(gc['nodes'], allow_R=sir))
         case['I0'], case['R0'] = I0, R0
+    if ('individual_based' in name or 'pair_based' in name) and '[' not in name and draw(st.booleans()):
+        case['nodelist_perm'] = list(draw(st.permutations(list(range(len(gc['nodes']))))))    # explicit nodelist, caller's order
     return case
 
 
